@@ -214,13 +214,40 @@ def rule_batch(ctx) -> None:
         p_once = dcfg.path([n], lambda z: z in heads_d, avoid=lambda z: z in consumed, edge_ok=no_exc, include_start=False) if n not in consumed else None
         # the consuming statement may also precede the call in the same iteration
         dom_cons = any(dcfg.dominates(m, n) and any(dcfg.dominates(h, m) for h in heads_d) for m in consumed)
-        ctx.check(dom_cons or (bool(consumed) and p_once is None), "C10.BATCH", f"{drv.qual}/each-picked-agent-once", drv.loc(c),
+        # ... or the loop runs over the pick itself: one iteration - one compute - per picked agent
+        over_pick = None
+        for st, part in enclosing(ctx.prog, drv, c):
+            if isinstance(st, ast.For) and part == "body" and isinstance(st.iter, ast.Name) and st.iter.id in picked_vars and isinstance(st.target, ast.Name) \
+                    and len(c.args) >= 3 and isinstance(c.args[2], ast.Name) and c.args[2].id == st.target.id:
+                over_pick = st
+        ctx.check(over_pick is not None or dom_cons or (bool(consumed) and p_once is None), "C10.BATCH", f"{drv.qual}/each-picked-agent-once", drv.loc(c),
                   "the loop consumes the pick (remove / seen-set) in the iteration that computes the agent: one task per picked agent",
                   "the compute loop tests membership in the pick but never consumes it: an agent named twice in the batch has both tasks computed on the same snapshot and committed together, "
                   "although the second overlaps the graphs of the first")
         facts = dcfg.facts(n)
         ok = any((not p) and any(t.endswith(f" not in {pv}") for pv in picked_vars) for t, p in facts) or any(p and any(t.endswith(f" in {pv}") and " not in " not in t for pv in picked_vars) for t, p in facts)
-        ctx.check(ok, "C10.BATCH", f"{drv.qual}/compute-only-picked", drv.loc(c), "only picked agents are computed", "an agent outside the independent batch is computed")
+        ctx.check(ok or over_pick is not None, "C10.BATCH", f"{drv.qual}/compute-only-picked", drv.loc(c), "only picked agents are computed", "an agent outside the independent batch is computed")
+        # which of an agent's tasks: the one the sequential loop would run first.  Taken straight from the task loop (first match,
+        # the pick being consumed) or from the head of a per-agent queue - never from its tail.
+        if len(c.args) >= 4:
+            ta = c.args[3]
+            how = None
+            if isinstance(ta, ast.Call) and isinstance(ta.func, ast.Attribute) and ta.func.attr == "pop":
+                how = "first" if ta.args and isinstance(ta.args[0], ast.Constant) and ta.args[0].value == 0 else ("last" if not ta.args or (isinstance(ta.args[0], ast.UnaryOp)) else None)
+            elif isinstance(ta, ast.Subscript) and not isinstance(ta.slice, ast.Slice):
+                how = "first" if isinstance(ta.slice, ast.Constant) and ta.slice.value == 0 else ("last" if isinstance(ta.slice, ast.UnaryOp) else None)
+            elif isinstance(ta, ast.Name):
+                rdd0 = ctx.rd(drv)
+                ds = rdd0.reaching(ta.id, n)
+                if ds and all(d.kind in ("for", "unpack") or (d.target is not None and isinstance(d.target, ast.Tuple)) for d in ds):
+                    how = "first"   # bound by the loop over the task list; once-per-agent (above) makes it the first match
+                elif ds and all(d.value is not None and isinstance(d.value, ast.Call) and isinstance(d.value.func, ast.Attribute) and d.value.func.attr == "pop" for d in ds):
+                    how = "first" if all(d.value.args and isinstance(d.value.args[0], ast.Constant) and d.value.args[0].value == 0 for d in ds) else "last"
+            if how is None:
+                ctx.undecided("C10.BATCH", f"{drv.qual}/first-task-of-agent", drv.loc(c), f"cannot tell which queued task `{src(ta)[:40]}` is")
+            else:
+                ctx.check(how == "first", "C10.BATCH", f"{drv.qual}/first-task-of-agent", drv.loc(c), "a picked agent's first queued task is the one computed (as the sequential loop would)",
+                          f"`{src(ta)[:40]}` takes the LAST task queued for the agent: when an agent is named twice in the batch the parallel path computes a different turn than the sequential loop runs first")
         okb = len(c.args) >= 2 and isinstance(c.args[1], ast.Name)
         rdd = ctx.rd(drv)
         bd = [d for d in rdd.all_defs if okb and d.name == c.args[1].id and d.value is not None]
